@@ -221,6 +221,21 @@ async def level1(sh, rig, r, regime, label):
     }
     ncall = r.choice([1, 2, 3, 5, 8, 12])
     tasks = []
+    # optionally a steady stream of unrelated (unsolicited) traffic for the whole scenario
+    stream = None
+    if r.random() < 0.35:
+        from vlib.rig import CLIENT_ID, SPA_ID
+
+        period = r.choice([0.04, 0.06, 0.15])
+        body = r.choice([b"STATP\x01\x01\x2c\x00\x00", b"QQQQQ", b"RFERR"])
+
+        async def streamer():
+            while True:
+                w.net.inject(b"<PACKT><SRCCN>" + SPA_ID + b"</SRCCN><DESCN>" + CLIENT_ID + b"</DESCN><DATAS>" + body + b"</DATAS></PACKT>", rig.sim.addr, rig.transport)
+                await asyncio.sleep(period)
+
+        stream = asyncio.ensure_future(streamer())
+        sh.count("scenarios_with_unrelated_stream")
     for i in range(ncall):
         k = r.choice(list(kinds))
         tasks.append(asyncio.ensure_future(kinds[k]()))
@@ -242,6 +257,8 @@ async def level1(sh, rig, r, regime, label):
     done, pending = await asyncio.wait(tasks, timeout=budget)
     for t in pending:
         t.cancel()
+    if stream is not None:
+        stream.cancel()
     w.net.fault = None
     for t in done:
         if t.exception() is not None and not isinstance(t.exception(), asyncio.CancelledError):
@@ -421,6 +438,7 @@ def main(tier, seed):
     run.need(run.counters.get("gated_datagrams_attributed", 0) > 20, "too few gated datagrams observed")
     run.need(run.maxima.get("max_concurrent_callers", 0) >= 8, "never 8 or more concurrent callers")
     run.need(run.counters.get("transport_lost_under_callers", 0) > 3, "transport loss under callers not exercised")
+    run.need(run.counters.get("scenarios_with_unrelated_stream", 0) > 10, "no scenario with a steady stream of unrelated traffic")
     return run.finish(
         rule="level 1: 1-12 concurrent callers of seven kinds (ping retry 1, version, channel, watercare, reminders, key press, ranged refresh) with drawn arrival gaps against reply loss (0..100%), late replies (up to 5 s), duplicates, request loss, wrong-verb replies and loss of the endpoint under the callers; level 2: ping/refresh/facade-update loops plus user commands through healthy-blackout-healthy phases; regimes B/J/H; one evaluation = one engine call or one gated API call; distinct = distinct scenarios",
         assumptions=["duration bound = retry count x (timeout + pause) plus measured scheduling latency (one poll and two timer latenesses per attempt, injected stalls)", "'answering pings' is judged by the monitor from queue pops of ping replies: last reply (or ping-loop start) younger than 2 x PING_FREQUENCY", "retries of an already admitted request during a later outage are what the code does and are not flagged"],
